@@ -34,16 +34,50 @@ type FieldSpec struct {
 	Ptr      bool   // field type is a pointer to the embedded struct
 	// Anonymous: a Go anonymous (embedded) field without the `embedded` tag
 	Anonymous bool
+	// FixedType: the embedded struct is this existing Go type (gorm.Model); Embedded describes its fields
+	FixedType reflect.Type
+
+	// Ignored: a `gorm:"-"` field: no column, never written, never loaded
+	Ignored bool
+	// TagStyle: 0 as documented (primaryKey, column:…), 1 upper-case keys (PRIMARYKEY, COLUMN:…), 2 snake alias (primary_key)
+	TagStyle int
 }
 
 // StructSpec is an ordered list of fields.
 type StructSpec struct {
 	Fields []*FieldSpec
+	// NoLowerCase: the handle's NamingStrategy has NoLowerCase set: a column is named like its field
+	NoLowerCase bool
 }
 
 // Tag renders the gorm tag of the field.
 func (f *FieldSpec) Tag() string {
+	parts := f.tagParts()
+	for i, p := range parts {
+		switch f.TagStyle {
+		case 1:
+			if j := strings.Index(p, ":"); j >= 0 {
+				parts[i] = strings.ToUpper(p[:j]) + p[j:]
+			} else {
+				parts[i] = strings.ToUpper(p)
+			}
+		case 2:
+			if p == "primaryKey" {
+				parts[i] = "primary_key"
+			}
+		}
+	}
+	return strings.Join(parts, ";")
+}
+
+func (f *FieldSpec) tagParts() []string {
 	var parts []string
+	if f.FixedType != nil {
+		return nil
+	}
+	if f.Ignored {
+		return []string{"-"}
+	}
 	if f.Embedded != nil {
 		if !f.Anonymous {
 			parts = append(parts, "embedded")
@@ -51,7 +85,7 @@ func (f *FieldSpec) Tag() string {
 		if f.Prefix != "" {
 			parts = append(parts, "embeddedPrefix:"+f.Prefix)
 		}
-		return strings.Join(parts, ";")
+		return parts
 	}
 	if f.Column != "" {
 		parts = append(parts, "column:"+f.Column)
@@ -79,7 +113,7 @@ func (f *FieldSpec) Tag() string {
 		parts = append(parts, "unique")
 	}
 	if f.Index != "" {
-		parts = append(parts, f.Index)
+		parts = append(parts, strings.Split(f.Index, ";")...)
 	}
 	if f.Check != "" {
 		if f.CheckName != "" {
@@ -88,7 +122,7 @@ func (f *FieldSpec) Tag() string {
 			parts = append(parts, "check:"+f.Check)
 		}
 	}
-	return strings.Join(parts, ";")
+	return parts
 }
 
 // String renders the spec canonically.
@@ -127,6 +161,9 @@ func (s *StructSpec) Type() reflect.Type {
 		sf := reflect.StructField{Name: f.Name, Anonymous: f.Anonymous}
 		if f.Embedded != nil {
 			sf.Type = f.Embedded.Type()
+			if f.FixedType != nil {
+				sf.Type = f.FixedType
+			}
 			if f.Ptr {
 				sf.Type = reflect.PointerTo(sf.Type)
 			}
@@ -181,6 +218,7 @@ func (l *Leaf) GroupKeys() []string {
 // Build computes the struct type and the expected columns.
 func Build(s *StructSpec) *Model {
 	m := &Model{Spec: s, Type: s.Type()}
+	s0 := s
 	var walk func(s *StructSpec, path []int, hops []bool, goPath, prefix string, under bool)
 	walk = func(s *StructSpec, path []int, hops []bool, goPath, prefix string, under bool) {
 		for i, f := range s.Fields {
@@ -196,6 +234,13 @@ func Build(s *StructSpec) *Model {
 			name := f.Column
 			if name == "" {
 				name = SnakeName(f.Name)
+				if s0.NoLowerCase {
+					name = f.Name
+				}
+			}
+			if f.Ignored {
+				m.Shadowed = append(m.Shadowed, &Leaf{Spec: f, Kind: f.Kind, Path: p, PtrHop: append(append([]bool(nil), hops...), false), GoPath: gp, DBName: "-", UnderPtr: under})
+				continue
 			}
 			m.Leaves = append(m.Leaves, &Leaf{Spec: f, Kind: f.Kind, Path: p, PtrHop: append(append([]bool(nil), hops...), false),
 				GoPath: gp, DBName: prefix + name, UnderPtr: under})
@@ -335,7 +380,7 @@ var namePool = [][2]string{
 }
 
 var nameMap = func() map[string]string {
-	m := map[string]string{"ID": "id", "Marker": "marker", "CreatedAt": "created_at", "UpdatedAt": "updated_at"}
+	m := map[string]string{"ID": "id", "Marker": "marker", "CreatedAt": "created_at", "UpdatedAt": "updated_at", "DeletedAt": "deleted_at", "OwnerID": "owner_id"}
 	for _, p := range namePool {
 		m[p[0]] = p[1]
 	}
